@@ -28,7 +28,7 @@ impl Property for C16 {
     fn cases(tier: Tier) -> u32 {
         match tier {
             Tier::Quick => 1200,
-            Tier::Thorough => 20000,
+            Tier::Thorough => 150000,
         }
     }
 
